@@ -374,3 +374,89 @@ Definition diag_case (I : inst dyad) : Q * Q * bool :=
    qmax (flat_map (fun i => map (fun f => if is_bnd I f then dy (res_bp dyad DO I (de i) f) else 0)
                                 (seq 0 (nf I))) [0; 1; 2; 3]%nat),
    cross_check I).
+
+(* ================================================================================ *)
+(* Scale-robust certificates (second generation; the definitions above are kept).
+   The band is purely relative: |residual| <= 1e-9 * mag, where mag is the norm-wise scale
+   of the residual (for every matrix-vector term the 1-norm of the row times the max-norm of
+   the vector, plus |exact value|: the usual backward-error scale), so that
+   grids and tensors scaled by any power of two are checked with the same sharpness. *)
+Definition dabs (a : dyad) : dyad := let '(m, x) := a in (Z.abs m, x).
+Definition drow_abs (M : coo dyad) (r : nat) (x : nat -> dyad) : dyad :=
+  fold_right (fun (t : nat * nat * dyad) acc =>
+                if (fst (fst t) =? r)%nat then dadd (dmul (dabs (snd t)) (dabs (x (snd (fst t))))) acc
+                else acc) (0, 0)%Z M.
+Definition within2 (r mag : dyad) : bool :=
+  Qle_bool (Qabs (dy r)) ((1 # 1000000000) * dy mag).
+
+(* norm-wise scale of one matrix-vector term: (sum of |entries| of row r) * max |x| over the
+   columns the matrix uses *)
+Definition dleb (a b : dyad) : bool :=
+  let '(m1, x1) := a in let '(m2, x2) := b in
+  if (x1 <=? x2)%Z then (m1 <=? Z.shiftl m2 (x2 - x1))%Z else (Z.shiftl m1 (x1 - x2) <=? m2)%Z.
+Definition dmax (a b : dyad) : dyad := if dleb a b then b else a.
+Definition drow_sum (M : coo dyad) (r : nat) : dyad :=
+  fold_right (fun (t : nat * nat * dyad) acc =>
+                if (fst (fst t) =? r)%nat then dadd (dabs (snd t)) acc else acc) (0, 0)%Z M.
+Definition dmaxabs (M : coo dyad) (x : nat -> dyad) : dyad :=
+  fold_right (fun (t : nat * nat * dyad) acc => dmax (dabs (x (snd (fst t)))) acc) (0, 0)%Z M.
+Definition dterm (M : coo dyad) (r : nat) (x : nat -> dyad) : dyad :=
+  dmul (drow_sum M r) (dmaxabs M x).
+
+Definition mag_flux (I : inst dyad) (c : coef dyad) (f : nat) : dyad :=
+  dadd (dadd (dterm (FL I) f (pcell dyad DO I c)) (dterm (BF I) f (bdata dyad DO I c)))
+       (dabs (exact dyad DO I c f)).
+Definition mag_bp (I : inst dyad) (c : coef dyad) (f : nat) : dyad :=
+  dadd (dadd (dterm (BPC I) f (pcell dyad DO I c)) (dterm (BPF I) f (bdata dyad DO I c)))
+       (dabs (lin dyad DO c (fcen I f))).
+(* (the maxima are computed once per basis field, not once per face) *)
+Definition flux_cert2 (I : inst dyad) : bool :=
+  forallb (fun i =>
+             let c := de i in
+             let mp := dmaxabs (FL I) (pcell dyad DO I c) in
+             let mb := dmaxabs (BF I) (bdata dyad DO I c) in
+             forallb (fun f => within2 (res_flux dyad DO I c f)
+                                       (dadd (dadd (dmul (drow_sum (FL I) f) mp)
+                                                   (dmul (drow_sum (BF I) f) mb))
+                                             (dabs (exact dyad DO I c f))))
+                     (seq 0 (nf I)))
+          [0; 1; 2; 3]%nat.
+Definition bp_cert2 (I : inst dyad) : bool :=
+  forallb (fun i =>
+             let c := de i in
+             let mp := dmaxabs (BPC I) (pcell dyad DO I c) in
+             let mb := dmaxabs (BPF I) (bdata dyad DO I c) in
+             forallb (fun f => negb (is_bnd I f)
+                               || within2 (res_bp dyad DO I c f)
+                                          (dadd (dadd (dmul (drow_sum (BPC I) f) mp)
+                                                      (dmul (drow_sum (BPF I) f) mb))
+                                                (dabs (lin dyad DO c (fcen I f)))))
+                     (seq 0 (nf I)))
+          [0; 1; 2; 3]%nat.
+Definition check_case2 (nfaces nbnd : Z) (I : inst dyad) : bool :=
+  (Z.of_nat (nf I) =? nfaces)%Z
+  && (Z.of_nat (length (filter (is_bnd I) (seq 0 (nf I)))) =? nbnd)%Z
+  && spd_b (dym (perm I)) && flux_cert2 I && bp_cert2 I && cross_check I.
+
+Definition mag_local (I : inst dyad) (LA : coo dyad) (nd : nat) (c : coef dyad) (r : nat) : dyad :=
+  dadd (dterm LA r (gstar dyad c nd))
+       (dadd (dterm (FL I) r (pcell dyad DO I c)) (dterm (BF I) r (bdata dyad DO I c))).
+Definition local_cert2 (I : inst dyad) (LA : coo dyad) (nd nrows : nat) : bool :=
+  forallb (fun i =>
+             let c := de i in
+             let mg := dmaxabs LA (gstar dyad c nd) in
+             let mp := dmaxabs (FL I) (pcell dyad DO I c) in
+             let mb := dmaxabs (BF I) (bdata dyad DO I c) in
+             forallb (fun r => within2 (res_local dyad DO I LA nd c r)
+                                       (dadd (dmul (drow_sum LA r) mg)
+                                             (dadd (dmul (drow_sum (FL I) r) mp)
+                                                   (dmul (drow_sum (BF I) r) mb))))
+                     (seq 0 nrows))
+          [0; 1; 2; 3]%nat.
+Definition check_local2 (nd nrows nnzA : Z) (I : inst dyad) (la : list Z) : bool :=
+  let LA := of_dcoo la in
+  (0 <? nrows)%Z && (Z.of_nat (length la) =? nnzA)%Z
+  && forallb (fun t : nat * nat * dyad => (fst (fst t) <? Z.to_nat nrows)%nat
+                                          && (snd (fst t) <? Z.to_nat nrows)%nat) LA
+  && spd_b (dym (perm I))
+  && local_cert2 I LA (Z.to_nat nd) (Z.to_nat nrows).
